@@ -53,21 +53,29 @@ def NoReaders (s : State) : Prop := ∀ (i : Nat) (v : VThread), s.vs[i]? = some
 theorem vstep_frame {cfg : Cfg} {sh sh' : Shared} {i : Nat} {v v' : VThread}
     (h : vstep cfg sh i v = some (sh', v')) :
     sh'.db = sh.db ∧ sh'.gen = sh.gen ∧ sh'.now = sh.now ∧ v'.val = v.val := by
-  rcases vstep_spec h with ⟨_, h1, h2⟩ | ⟨_, _, h2⟩ | ⟨_, r, _, h2⟩ | ⟨_, r, _, h1, h2⟩ | ⟨_, h1, h2⟩ | ⟨_, h1, h2⟩
-  · subst h1
-    rcases h2 with ⟨e, _, _, h2⟩ | h2 <;> subst h2 <;> simp
+  rcases vstep_spec h with ⟨_, h1, h2⟩ | ⟨_, _, h2⟩ | ⟨_, r, _, h2⟩ | ⟨_, r, _, h1, h2⟩ | ⟨_, h1, h2⟩ | ⟨_, h1, h2⟩ | ⟨_, e, _, h1, h2⟩
+  rotate_left
   · rcases h2 with ⟨r, _, h1, h2⟩ | ⟨_, h1, h2⟩ <;> subst h1 <;> subst h2 <;> simp
   · rcases h2 with ⟨_, _, h1, h2⟩ | ⟨_, _, h1, h2⟩ | ⟨_, h1, h2⟩ <;> subst h1 <;> subst h2 <;> simp
   · subst h1
     rcases h2 with ⟨_, _, h2⟩ | ⟨_, h2⟩ <;> subst h2 <;> simp
   · subst h1; subst h2; simp
   · subst h1; subst h2; simp
+  · subst h1
+    rcases h2 with ⟨_, h2⟩ | h2 <;> subst h2 <;> simp
+  · subst h1
+    rcases h2 with ⟨e, _, _, h2⟩ | h2 <;> subst h2 <;> simp
 
 theorem vstep_cache {cfg : Cfg} {sh sh' : Shared} {i : Nat} {v v' : VThread}
+    (hnt : cfg.hitTouch = false)
     (h : vstep cfg sh i v = some (sh', v')) (p : Nat × Entry) (hp : p ∈ sh'.cache) :
     p ∈ sh.cache ∨ (v.pc = .preins ∧ ∃ r, v.rd = some r ∧
       p = (v.val, { info := r, cexp := v.now + cfg.ttl }) ∧ (cfg.genGuard = true → v.gen = sh.gen)) := by
-  rcases vstep_spec h with ⟨_, h1, _⟩ | ⟨_, _, h2⟩ | ⟨_, r, _, h2⟩ | ⟨hpc, r, hr, _, h2⟩ | ⟨_, h1, _⟩ | ⟨_, h1, _⟩
+  rcases vstep_spec h with ⟨_, h1, _⟩ | ⟨_, _, h2⟩ | ⟨_, r, _, h2⟩ | ⟨hpc, r, hr, _, h2⟩ | ⟨_, h1, _⟩ | ⟨_, h1, _⟩ | ⟨_, e, _, _, h2⟩
+  rotate_right
+  · rcases h2 with ⟨ht, _⟩ | h2
+    · rw [hnt] at ht; simp at ht
+    · subst h2; exact Or.inl hp
   · subst h1; exact Or.inl hp
   · rcases h2 with ⟨r, _, h1, _⟩ | ⟨_, h1, _⟩ <;> subst h1 <;> exact Or.inl hp
   · rcases h2 with ⟨_, _, h1, _⟩ | ⟨_, _, h1, _⟩ | ⟨_, h1, _⟩ <;> subst h1 <;> exact Or.inl hp
@@ -87,7 +95,9 @@ theorem vstep_read {cfg : Cfg} {sh sh' : Shared} {i : Nat} {v v' : VThread} {m :
     ReadOK cfg sh'.db sh'.gen m v' := by
   have hf := vstep_frame h
   rw [hf.1, hf.2.1]
-  rcases vstep_spec h with ⟨_, _, h2⟩ | ⟨_, _, h2⟩ | ⟨hpc, r, hrd, h2⟩ | ⟨_, r, _, h1, _⟩ | ⟨_, _, h2⟩ | ⟨_, _, h2⟩
+  rcases vstep_spec h with ⟨_, _, h2⟩ | ⟨_, _, h2⟩ | ⟨hpc, r, hrd, h2⟩ | ⟨_, r, _, h1, _⟩ | ⟨_, _, h2⟩ | ⟨_, _, h2⟩ | ⟨_, e, _, h2, _⟩
+  rotate_right
+  · subst h2; intro hpc; simp at hpc
   · rcases h2 with ⟨e, _, _, h2⟩ | h2 <;> subst h2 <;> intro hpc <;> simp at hpc
   · rcases h2 with ⟨r, hc, _, h2⟩ | ⟨_, _, h2⟩
     · subst h2
@@ -115,7 +125,9 @@ theorem vstep_read {cfg : Cfg} {sh sh' : Shared} {i : Nat} {v v' : VThread} {m :
 theorem vstep_gen {cfg : Cfg} {sh sh' : Shared} {i : Nat} {v v' : VThread}
     (h : vstep cfg sh i v = some (sh', v')) :
     (v.pc = .start → v'.gen = sh.gen) ∧ (v.pc ≠ .start → v'.gen = v.gen) := by
-  rcases vstep_spec h with ⟨hpc, _, h2⟩ | ⟨hpc, _, h2⟩ | ⟨hpc, r, _, h2⟩ | ⟨hpc, r, _, h1, _⟩ | ⟨hpc, _, h2⟩ | ⟨hpc, _, h2⟩
+  rcases vstep_spec h with ⟨hpc, _, h2⟩ | ⟨hpc, _, h2⟩ | ⟨hpc, r, _, h2⟩ | ⟨hpc, r, _, h1, _⟩ | ⟨hpc, _, h2⟩ | ⟨hpc, _, h2⟩ | ⟨hpc, e, _, h2, _⟩
+  rotate_right
+  · subst h2; simp [hpc]
   · rcases h2 with ⟨e, _, _, h2⟩ | h2 <;> subst h2 <;> simp [hpc]
   · rcases h2 with ⟨r, _, _, h2⟩ | ⟨_, _, h2⟩ <;> subst h2 <;> simp [hpc]
   · rcases h2 with ⟨_, _, _, h2⟩ | ⟨_, _, _, h2⟩ | ⟨_, _, h2⟩ <;> subst h2 <;> simp [hpc]
@@ -125,8 +137,10 @@ theorem vstep_gen {cfg : Cfg} {sh sh' : Shared} {i : Nat} {v v' : VThread}
 
 /-- **Preservation.** Every step keeps the invariant, except a mutator SQL statement executed while
 some verifier sits between its database read and its cache insert in a configuration without the
-generation guard — the side condition `hsafe` excludes exactly that. -/
-theorem inv_step {cfg : Cfg} {s s' : State} {ev : Ev} (hI : Inv cfg s) (hs : step cfg s ev = some s')
+generation guard — the side condition `hsafe` excludes exactly that — and provided the cache-hit path
+does not write the cache (`hnt`). -/
+theorem inv_step {cfg : Cfg} {s s' : State} {ev : Ev} (hnt : cfg.hitTouch = false) (hI : Inv cfg s)
+    (hs : step cfg s ev = some s')
     (hsafe : cfg.genGuard = true ∨ ¬ (ev = .m ∧ s.m.pc = .start) ∨ NoReaders s) : Inv cfg s' := by
   cases ev with
   | v i =>
@@ -138,7 +152,7 @@ theorem inv_step {cfg : Cfg} {s s' : State} {ev : Ev} (hI : Inv cfg s) (hs : ste
       intro k e hke
       simp only at hke ⊢
       rw [hf.1]
-      rcases vstep_cache hvs (k, e) hke with hold | ⟨hpc, r, hrd, hp, hg⟩
+      rcases vstep_cache hnt hvs (k, e) hke with hold | ⟨hpc, r, hrd, hp, hg⟩
       · exact hI.cache k e hold
       · simp only [Prod.mk.injEq] at hp
         obtain ⟨hk, he⟩ := hp
